@@ -46,6 +46,18 @@ class EnumClass:
 TYPES = {'str': str, 'int': int, 'bytes': bytes, 'list': list, 'tuple': tuple, 'dict': dict, 'bool': bool, 'float': float, 'bytearray': bytearray, 'set': set, 'frozenset': frozenset}
 
 
+class MemberProbe:
+    """stands for 'any value': the first `probe in <container>` test reached raises ProbeHit with the container"""
+    def __repr__(self):
+        return '<probe>'
+
+
+class ProbeHit(Exception):
+    def __init__(self, container, negated, node):
+        Exception.__init__(self, 'probe')
+        self.container, self.negated, self.node = container, negated, node
+
+
 class Raised(Exception):
     def __init__(self, name, node):
         Exception.__init__(self, name)
@@ -118,8 +130,20 @@ BIN = {ast.Add: operator.add, ast.Sub: operator.sub, ast.Mult: operator.mul, ast
 CMP = {ast.Eq: operator.eq, ast.NotEq: operator.ne, ast.Lt: operator.lt, ast.LtE: operator.le, ast.Gt: operator.gt, ast.GtE: operator.ge,
        ast.Is: lambda a, b: a is b or (a == b and isinstance(a, (Enum, bool, type(None)))), ast.IsNot: lambda a, b: not (a is b or (a == b and isinstance(a, (Enum, bool, type(None))))),
        ast.In: lambda a, b: a in b, ast.NotIn: lambda a, b: a not in b}
+class LiveEnum:
+    """enumerate(<list>): walks the list as it is at each step"""
+    def __init__(self, lst, start=0):
+        self.lst, self.start = lst, start
+
+    def __iter__(self):
+        i = 0
+        while i < len(self.lst):
+            yield (i + self.start, self.lst[i])
+            i += 1
+
+
 FUNCS = {'str': str, 'int': int, 'float': float, 'len': len, 'tuple': tuple, 'list': list, 'bool': bool, 'min': min, 'max': max, 'abs': abs,
-         'sorted': sorted, 'any': any, 'all': all, 'range': range, 'zip': lambda *a: list(zip(*a)), 'enumerate': lambda x: list(enumerate(x)),
+         'sorted': sorted, 'any': any, 'all': all, 'range': range, 'zip': lambda *a: list(zip(*a)), 'enumerate': lambda x, start=0: LiveEnum(x, start) if isinstance(x, list) else list(enumerate(x, start)),
          'map': lambda f, *a: [f(*x) for x in zip(*a)], 'reversed': lambda x: list(reversed(x)), 'set': set, 'frozenset': frozenset, 'dict': dict,
          'isinstance': None}
 STR_METHODS = {'split', 'join', 'format', 'strip', 'lstrip', 'rstrip', 'startswith', 'endswith', 'lower', 'upper', 'capitalize', 'partition', 'rpartition', 'replace', 'zfill'}
@@ -136,6 +160,80 @@ class Folder:
         self.pick = 'lo'                        # how an AbsIdx is made concrete
         self.capture_returns = False            # stop at the first return statement reached (Captured)
         self.enum_tables = {}                   # enumeration class name -> member names (in definition order); validates enums.X['K']
+        self.module = None                      # ast.Module: free names resolve to its functions, Enum classes and (folded) constants
+        self._globals = {}
+        self._resolving = set()
+
+    def global_name(self, name):
+        """the value a module-level name has after import: a function, an enumeration class, or the folded right-hand side of its single
+        assignment (`A, B = _build()` included); Unfoldable if it is not defined exactly once by such a statement"""
+        if name in self._globals:
+            return self._globals[name]
+        if self.module is None or name in self._resolving:
+            raise Unfoldable('free name %s' % name)
+        defs = []
+        for st in self.module.body:
+            if isinstance(st, (ast.FunctionDef, ast.ClassDef)) and st.name == name:
+                defs.append(st)
+            elif isinstance(st, ast.Assign) and any(isinstance(x, ast.Name) and x.id == name for t in st.targets for x in ast.walk(t)):
+                defs.append(st)
+            elif isinstance(st, (ast.AugAssign, ast.AnnAssign)) and isinstance(st.target, ast.Name) and st.target.id == name:
+                raise Unfoldable('module name %s is augmented/annotated' % name)
+        if len(defs) != 1:
+            raise Unfoldable('free name %s' % name)
+        d = defs[0]
+        if isinstance(d, ast.FunctionDef):
+            v = d
+        elif isinstance(d, ast.ClassDef):
+            bases = {dotted(b) for b in d.bases}
+            if not bases & {'enum.Enum', 'Enum', 'OrderedEnum', 'enum.IntEnum', 'IntEnum'}:
+                raise Unfoldable('class %s' % name)
+            v = EnumClass(name)
+        else:
+            self._resolving.add(name)
+            try:
+                genv = {}
+                depth, self.depth = self.depth, self.depth + 1          # a return captured at depth 0 is not wanted here
+                try:
+                    val = self.ev(d.value, genv)
+                finally:
+                    self.depth = depth
+                for t in d.targets:
+                    self.bind(t, val, genv)
+            finally:
+                self._resolving.discard(name)
+            for k, x in genv.items():
+                self._globals[k] = x
+            v = genv[name]
+        self._globals[name] = v
+        return v
+
+    def call_function(self, fn, args, kw):
+        a = fn.args
+        if a.vararg or a.kwarg or a.kwonlyargs:
+            raise Unfoldable('signature of %s' % fn.name)
+        ps = [x.arg for x in a.posonlyargs + a.args]
+        if len(args) > len(ps):
+            raise Raised('TypeError', fn)
+        env = dict(zip(ps, args))
+        defaults = dict(zip(reversed(ps), reversed(a.defaults)))
+        for k, v in kw.items():
+            if k not in ps:
+                raise Raised('TypeError', fn)
+            env[k] = v
+        for p_ in ps:
+            if p_ not in env:
+                if p_ not in defaults:
+                    raise Raised('TypeError', fn)
+                env[p_] = self.ev(defaults[p_], {})
+        if self.depth > 6:
+            raise Unfoldable('call depth')
+        self.depth += 1
+        try:
+            r = self.run(fn.body, env)
+        finally:
+            self.depth -= 1
+        return r[1] if r[0] == 'return' else None
 
     def items_of(self, v):
         """the elements iterating over v yields"""
@@ -147,10 +245,29 @@ class Folder:
             raise Unfoldable('iteration over an abstract value')
         if isinstance(v, dict):
             return [k for k in v if k != '__attrs__']
+        if isinstance(v, LiveEnum):
+            return v
         try:
             return list(v)
         except TypeError:
             raise Raised('TypeError', None)
+
+    def live_items(self, v, node):
+        """iteration over a mutable container sees the container as it is at each step: a list is walked by position against its
+        current length (an element removed during the walk makes the walk skip its successor), a mapping that changes size during
+        the walk raises RuntimeError - as in Python"""
+        if isinstance(v, list):
+            i = 0
+            while i < len(v):
+                yield v[i]
+                i += 1
+        else:
+            keys = [k for k in v if k != '__attrs__']
+            n = len(v)
+            for k in keys:
+                yield k
+                if len(v) != n:
+                    raise Raised('RuntimeError', node)
 
     def conc(self, v):
         if isinstance(v, AbsIdx):
@@ -201,7 +318,7 @@ class Folder:
                 return {'True': True, 'False': False, 'None': None}[e.id]
             if e.id in TYPES:
                 return TYPES[e.id]
-            raise Unfoldable('free name %s' % e.id)
+            return self.global_name(e.id)
         if isinstance(e, (ast.Tuple, ast.List)):
             vs = [self.ev(x, env) for x in e.elts]
             return tuple(vs) if isinstance(e, ast.Tuple) else vs
@@ -240,6 +357,10 @@ class Folder:
             left = self.ev(e.left, env)
             for op, c in zip(e.ops, e.comparators):
                 right = self.ev(c, env)
+                if isinstance(left, MemberProbe) and isinstance(op, (ast.In, ast.NotIn)) and len(e.ops) == 1 and isinstance(right, (list, tuple, set, frozenset, dict)):
+                    raise ProbeHit(right, isinstance(op, ast.NotIn), e)
+                if isinstance(left, MemberProbe) or isinstance(right, MemberProbe):
+                    raise Unfoldable('the probed value is compared other than by membership')
                 if isinstance(left, Opaque) or isinstance(right, Opaque):
                     raise Unfoldable('comparison with an opaque value')
                 if isinstance(left, SymInt) and right == 0 and type(op) in (ast.Lt, ast.LtE, ast.Gt, ast.GtE, ast.Eq, ast.NotEq):
@@ -283,6 +404,10 @@ class Folder:
             if isinstance(e.value, ast.Name) and e.value.id == 'enums' and 'enums' not in env and e.attr[:1].isupper() and not e.attr.isupper():
                 return EnumClass(e.attr)
             b = self.ev(e.value, env)
+            if isinstance(b, EnumClass) and e.attr.isupper():
+                if b.name in self.enum_tables and e.attr not in self.enum_tables[b.name]:
+                    raise Raised('AttributeError', e)
+                return Enum(b.name, e.attr)
             if isinstance(b, (Version, Enum)) and hasattr(b, e.attr) and not e.attr.startswith('_'):
                 return getattr(b, e.attr)
             if isinstance(b, dict) and e.attr in b.get('__attrs__', ()):
@@ -335,6 +460,13 @@ class Folder:
         if name and name.split('.')[-1] in self.models and '.' in name and name.split('.')[0] not in env:
             # <module>.<function> for a modelled function (the receiver is not a local value)
             return self.models[name.split('.')[-1]](*args, **kw)
+        if isinstance(e.func, ast.Name) and (e.func.id in env or e.func.id not in FUNCS):
+            try:
+                fv = env[e.func.id] if e.func.id in env else self.global_name(e.func.id)
+            except Unfoldable:
+                fv = None
+            if isinstance(fv, ast.FunctionDef):
+                return self.call_function(fv, args, kw)
         if isinstance(e.func, ast.Name) and e.func.id in FUNCS and e.func.id not in env:
             if e.func.id == 'isinstance':
                 v_, c_ = args
@@ -430,6 +562,19 @@ class Folder:
                 raise Raised('ValueError', t)
             for x, y in zip(t.elts, vs):
                 self.bind(x, y, env)
+        elif isinstance(t, ast.Subscript) and isinstance(t.slice, ast.Slice):
+            b = self.ev(t.value, env)
+            if not isinstance(b, list):
+                raise Unfoldable('slice store on %r' % (b,))
+            lo = self.conc(self.ev(t.slice.lower, env)) if t.slice.lower else None
+            hi = self.conc(self.ev(t.slice.upper, env)) if t.slice.upper else None
+            st = self.conc(self.ev(t.slice.step, env)) if t.slice.step else None
+            if any(isinstance(x_, (AbsNum, SymInt)) for x_ in (lo, hi, st)):
+                raise Unfoldable('slice with an unknown bound')
+            try:
+                b[lo:hi:st] = self.items_of(v)
+            except (TypeError, ValueError) as ex:
+                raise Raised(type(ex).__name__, t)
         elif isinstance(t, ast.Subscript) and not isinstance(t.slice, ast.Slice):
             b = self.ev(t.value, env)
             k_ = self.ev(t.slice, env)
@@ -473,7 +618,8 @@ class Folder:
                     return r
             elif isinstance(s, ast.For):
                 broke = False
-                for v in self.items_of(self.ev(s.iter, env)):
+                itv = self.ev(s.iter, env)
+                for v in (self.live_items(itv, s) if isinstance(itv, (list, dict)) else self.items_of(itv)):
                     self.bind(s.target, v, env)
                     r = self.run(s.body, env)
                     if r[0] == 'break':
@@ -485,6 +631,39 @@ class Folder:
                     r = self.run(s.orelse, env)
                     if r[0] != 'fall':
                         return r
+            elif isinstance(s, ast.While):
+                while self.ev(s.test, env):
+                    self.tick()
+                    r = self.run(s.body, env)
+                    if r[0] == 'break':
+                        break
+                    if r[0] == 'return':
+                        return r
+                else:
+                    if s.orelse:
+                        r = self.run(s.orelse, env)
+                        if r[0] != 'fall':
+                            return r
+            elif isinstance(s, ast.Delete):
+                for t in s.targets:
+                    if isinstance(t, ast.Name) and t.id in env:
+                        del env[t.id]
+                    elif isinstance(t, ast.Subscript):
+                        b = self.ev(t.value, env)
+                        if not isinstance(b, (dict, list)) or (isinstance(b, dict) and '__attrs__' in b):
+                            raise Unfoldable('item deletion on %r' % (b,))
+                        if isinstance(t.slice, ast.Slice):
+                            lo = self.conc(self.ev(t.slice.lower, env)) if t.slice.lower else None
+                            hi = self.conc(self.ev(t.slice.upper, env)) if t.slice.upper else None
+                            st = self.conc(self.ev(t.slice.step, env)) if t.slice.step else None
+                            del b[lo:hi:st]
+                        else:
+                            try:
+                                del b[self.conc(self.ev(t.slice, env))]
+                            except (KeyError, IndexError, TypeError) as ex:
+                                raise Raised(type(ex).__name__, t)
+                    else:
+                        raise Unfoldable('deletion target %s' % type(t).__name__)
             elif isinstance(s, ast.Return):
                 if self.capture_returns and self.depth == 0:
                     raise Captured(s, dict(env))
